@@ -10,6 +10,22 @@ ALL = [f"C{i:02d}" for i in range(1, 21)]
 
 
 def main(argv: list[str]) -> int:
+    """Everything runs inside one private temp directory (also joblib's memmapping folders), removed on exit."""
+    import shutil
+    import tempfile
+
+    base = "/dev/shm" if os.path.isdir("/dev/shm") else None
+    tmp = tempfile.mkdtemp(prefix="vf_run_", dir=base)
+    os.environ["JOBLIB_TEMP_FOLDER"] = tmp
+    os.environ["TMPDIR"] = tmp
+    tempfile.tempdir = tmp
+    try:
+        return _main(argv)
+    finally:
+        shutil.rmtree(tmp, ignore_errors=True)
+
+
+def _main(argv: list[str]) -> int:
     if not argv:
         print(__doc__)
         return 2
